@@ -494,7 +494,12 @@ func harvest(e *Env, o harvestOpts) (*harvestResult, error) {
 			}
 			p := substitute(exemplar[n], c.P.Name, c.P.Version)
 			if c.NLoc >= 2 && len(p.Locations) < 2 {
-				p.Locations = append(p.Locations, "second/location of "+c.P.Name)
+				if ci%2 == 1 {
+					// a directory name that is not valid UTF-8 (Latin-1 "café"): legal on Linux, must be kept verbatim
+					p.Locations = append(p.Locations, "second/caf\xe9/location of "+c.P.Name)
+				} else {
+					p.Locations = append(p.Locations, "second/location of "+c.P.Name)
+				}
 			}
 			if c.Layer {
 				p.LayerDetails = testLayer
